@@ -141,6 +141,13 @@ wait:
 		return out
 	}
 	res.Violations = append(res.Violations, viol...)
+	if s.Prop == "C13" && len(res.Violations) == 0 && !o.noIso && len(res.PipeHashes) == len(c13Kinds) {
+		if v, infra := b.isolatedC13(base, scnPath, s, &res); infra != "" {
+			out.infra = infra
+		} else if v != nil {
+			res.Violations = append(res.Violations, *v)
+		}
+	}
 	if s.Prop == "C11" && len(res.Violations) == 0 && !o.noIso {
 		if v, infra := b.isolatedReferences(base, scnPath, s, &res); infra != "" {
 			out.infra = infra
@@ -149,6 +156,49 @@ wait:
 		}
 	}
 	return out
+}
+
+var c13Kinds = []string{"print", "dump", "dumpT", "dumpP", "dumpTP", "traverse", "resolve"} // = harness opKinds
+
+// isolatedC13 recomputes ONE entry of a C13 run's reference table (chosen by
+// the run's seed) in a fresh, plain process in which nothing else has run.
+func (b *build) isolatedC13(base, scnPath string, s *scn.Scenario, res *scn.Result) (*scn.Violation, string) {
+	k := int((s.RunSeed >> 9) % uint64(len(c13Kinds)))
+	if res.PipeHashes[k] == "" {
+		return nil, ""
+	}
+	isoPath := base + ".iso.json"
+	os.Remove(isoPath)
+	cmd := exec.Command(b.simref, "-scn", scnPath, "-out", isoPath, "-iso", strconv.Itoa(k))
+	cmd.Env = append(os.Environ(), "GOTRACEBACK=single")
+	done := make(chan error, 1)
+	if err := cmd.Start(); err != nil {
+		return nil, "cannot start simref: " + err.Error()
+	}
+	go func() { done <- cmd.Wait() }()
+	select {
+	case <-done:
+	case <-time.After(runWallLimit):
+		cmd.Process.Kill()
+		<-done
+		return nil, "infra_timeout: isolated reference exceeded " + runWallLimit.String()
+	}
+	raw, err := os.ReadFile(isoPath)
+	if err != nil {
+		return nil, "simref produced no result for kind " + c13Kinds[k]
+	}
+	var iso scn.Result
+	if err := json.Unmarshal(raw, &iso); err != nil || len(iso.PipeHashes) != 1 {
+		return nil, "unreadable simref result"
+	}
+	if iso.Infra != "" {
+		return nil, "simref: " + iso.Infra
+	}
+	res.IsoChecked++
+	if iso.PipeHashes[0] == res.PipeHashes[k] {
+		return nil, ""
+	}
+	return &scn.Violation{Oracle: "H0-reference-equals-fresh-process", Sig: "isolated-reference:" + c13Kinds[k], Detail: fmt.Sprintf("%s on a freshly parsed tree of %s gives a different output in a fresh process, where nothing ran before it, than in the process that had already applied other operations to other trees: state kept outside the tree leaks between operations. fresh process: %s", c13Kinds[k], s.Inputs[0].Name, strings.Join(iso.Trace, " | "))}, ""
 }
 
 var hashParts = []string{"parse outcome", "reported errors", "tree after parsing"}
